@@ -306,7 +306,7 @@ pub fn plan(tier: Tier) -> Plan {
     } else {
         vec![b"".to_vec(), b"a".to_vec(), b"a\0".to_vec(), b"ab".to_vec(), b"b".to_vec()]
     };
-    p.rule = format!("every call history (valid, duplicate, smaller and empty keys at every position) of length <= depth over insert(k[,v]), k in {} keys, v in {{0,5}} for maps, on MapBuilder, SetBuilder, raw::Builder(insert only / add only); after EVERY prefix the builder is finished on a replayed copy and read back; each call result (variant and payload) and the content are compared with a reference builder; the same histories go through from_iter / extend_iter / extend_stream (followed by one further insert of every key of the alphabet, judged by the reference builder, and a final valid insert). non-trivial = histories containing at least one rejected call", keys.len());
+    p.rule = format!("every call history (valid, duplicate, smaller and empty keys at every position) of length <= depth over insert(k[,v]), k in {} keys, v in {{0,5}} for maps, on MapBuilder, SetBuilder, raw::Builder(insert only / add only); after EVERY prefix the builder is finished on a replayed copy and read back; each call result (variant and payload) and the content are compared with a reference builder; the same histories go through from_iter / extend_iter / extend_stream (followed, for histories of length 2..4, by one further insert of every key of the alphabet, judged by the reference builder, and a final valid insert). non-trivial = histories containing at least one rejected call", keys.len());
     p.assumptions = vec!["mixing add and insert on one raw builder is outside the property".into()];
     let alphabet_map: Vec<Kv> = keys.iter().flat_map(|k| [(k.clone(), 0u64), (k.clone(), 5u64)]).collect();
     let alphabet_set: Vec<Kv> = keys.iter().map(|k| (k.clone(), 0u64)).collect();
@@ -367,7 +367,7 @@ pub fn plan(tier: Tier) -> Plan {
                                 rep.violation(format!("{:?} [{}]", bulk, hist_str(&h)), msg, json!({"target": format!("{:?}", bulk), "history": hist_json(&h)}));
                             }
                             // one further insert after the bulk call, for every key of the alphabet
-                            if matches!(bulk, Bulk::MapExtendIter | Bulk::MapExtendStream | Bulk::SetExtendIter | Bulk::SetExtendStream | Bulk::RawExtendIter | Bulk::RawExtendStream) && h.len() >= 2 {
+                            if matches!(bulk, Bulk::MapExtendIter | Bulk::MapExtendStream | Bulk::SetExtendIter | Bulk::SetExtendStream | Bulk::RawExtendIter | Bulk::RawExtendStream) && h.len() >= 2 && h.len() <= 4 {
                                 for a in alphabet.iter() {
                                     st.states += 1;
                                     st.transitions += 2;
